@@ -16,16 +16,25 @@ open ZipVerif ZipVerif.Model ZipVerif.Spec.Zip ZipVerif.WL
 /-! ## 1. What `new_append` returns -/
 
 /-- **`newAppend_on_layout`** — for every layout that `reader_on_wf` (C03) covers: `new_append` returns
-the writer state `{ init with files := viewOf l, comment := l.comment, writing_raw := true }`; the sink
+the writer state `{ init with files := (viewOf l).map appendRecord, comment := l.comment, writing_raw := true }`; the sink
 still holds the archive and is positioned on the first byte of the OLD central directory
 (`l.pre.length + l.cdOffset`), which the appending writer overwrites.  The unconditional disk-number
 check and the D16 check `directory_start > cde_start` pass on a layout. -/
 theorem newAppend_on_layout (l : Layout) (hF : l.Fits) (hR : l.Readable) (hS : Spec.Zip.NoFalseSig l)
     (ht : l.trailing = [] ∨ l.needs64 = false) :
     ∃ d', newAppend.runPure (Dev.ofBytes (build l)) =
-        (.ok { WState.init with files := viewOf l, comment := l.comment, writingRaw := true }, d') ∧
+        (.ok { WState.init with files := (viewOf l).map appendRecord, comment := l.comment,
+                                writingRaw := true }, d') ∧
       d'.buf = build l ∧ d'.pos = l.cdStart :=
   Model.newAppend_on_layout l hF hR hS ht
+
+/-- What `appendRecord` (the D20 repair) does to a re-hydrated record: only the extra field changes — the
+inherited ZIP64 records are dropped; for a `Readable` entry exactly the foreign records remain. -/
+theorem appendRecord_view (e : Entry) (off pre chs : Nat) :
+    appendRecord (viewEntry e off pre chs) =
+      { viewEntry e off pre chs with extraField := e.keptExtra (UInt64.ofNat off) } ∧
+    (ExtraOk e.centralExtra → e.keptExtra (UInt64.ofNat off) = e.centralExtra) :=
+  ⟨rfl, keptExtra_of_extraOk e _⟩
 
 /-- The live part of the sink (what lies in front of the position) after `new_append`. -/
 theorem newAppend_live (l : Layout) :
@@ -44,7 +53,7 @@ theorem appendNorm_fields (e : Entry) (off pre : Nat) :
       (if e.flagsOut &&& 1 == 1 then 1 else 0)) ||| (if e.flagsOut &&& 0x0008 != 0 then 8 else 0)) ∧
     n.method = e.method ∧ n.time = e.time ∧ n.date = e.date ∧ n.crc = e.crc ∧ n.usize = e.usize ∧
     n.csize = e.csize ∧ n.name = Text.decodeToUtf8 (e.flagsOut &&& 0x0800 != 0) e.name ∧
-    n.centralExtra = e.centralZ64 (UInt64.ofNat off) ++ e.centralExtra ∧
+    n.centralExtra = e.keptExtra (UInt64.ofNat off) ∧
     n.comment = [] ∧ n.internalAttrs = 0 ∧ n.externalAttrs = e.externalAttrs ∧
     n.z64 = (false, false, false) ∧ n.desc = e.desc ∧
     n.localExtra = e.localExtra ∧ n.localZip64 = e.localZip64 ∧ n.gapBefore = e.gapBefore ∧
@@ -65,8 +74,12 @@ prefix of `pre` bytes) serialises, through `write_central_directory_header`, to 
 record of `appendNorm e off pre` at the absolute offset `off + pre`.  The only side condition is that
 the new ZIP64 record plus the kept old extra field fit the 16-bit length field. -/
 theorem view_closed (e : Entry) (off pre chs : Nat) (hfit : AppendFits e off pre) :
-    Closed (appendNorm e off pre) (off + pre) (viewEntry e off pre chs) :=
+    Closed (appendNorm e off pre) (off + pre) (appendRecord (viewEntry e off pre chs)) :=
   WL.view_closed e off pre chs hfit
+
+/-- Since D20 `AppendFits` holds for every entry that `Fits` and is `Readable`. -/
+theorem appendFits_of_fits_readable (e : Entry) (off pre : Nat) (hf : e.Fits) (hr : e.Readable) :
+    AppendFits e off pre := WL.appendFits_of_fits_readable e off pre hf hr
 
 /-- `AppendFits` holds when the foreign extra data leave room for two ZIP64 records. -/
 theorem appendFits_of_small (e : Entry) (off pre : Nat) (h : e.centralExtra.length + 56 ≤ 0xFFFF) :
@@ -89,30 +102,17 @@ theorem writer_entries_clean (f : FileData) (dp : UInt16) (gap lx data : Bytes) 
     (hs : (Spec.utf8Strict f.fileName).isSome = true) :
     AppendClean (specEntry f dp gap lx data lv) := specEntry_appendClean f dp gap lx data lv hs
 
-/-- … **and fixed points of `appendNorm` up to the central extra field**: write → append → append …
-re-emits the same central record each time, except that an entry that needs ZIP64 gets one more copy of
-its ZIP64 record in front of the kept extra field on every round.  (`hm`: the method is not an
-`Unsupported(v)` with `v` one of the known codes — true of every value the reader produces.) -/
+/-- … **and EXACT fixed points of `appendNorm`** (since D20): write → append → append … re-emits the
+same central record each time; the inherited ZIP64 record is dropped and regenerated, the extra field does
+not grow.  (`hm`: the method is not an `Unsupported(v)` with `v` one of the known codes — true of every
+value the reader produces; `hx`: the record's own extra data carry no ZIP64 / AES record.) -/
 theorem writer_entries_fixed (f : FileData) (dp : UInt16) (gap lx data : Bytes) (lv : UInt16) (off : Nat)
     (hs : (Spec.utf8Strict f.fileName).isSome = true)
     (hm : Method.fromU16 f.method.toU16 = f.method)
     (hcs : f.compressedSize = UInt64.ofNat data.length)
-    (hoff : f.headerStart = UInt64.ofNat off) :
-    appendNorm (specEntry f dp gap lx data lv) off 0 =
-      { specEntry f dp gap lx data lv with
-        centralExtra := centralZip64Bytes f ++ f.extraField
-        localVersion := some lv } :=
-  appendNorm_specEntry f dp gap lx data lv off hs hm hcs hoff
-
-/-- Without ZIP64 fields the fixed point is exact. -/
-theorem writer_entries_fixed_plain (f : FileData) (dp : UInt16) (gap lx data : Bytes) (lv : UInt16) (off : Nat)
-    (hs : (Spec.utf8Strict f.fileName).isSome = true)
-    (hm : Method.fromU16 f.method.toU16 = f.method)
-    (hcs : f.compressedSize = UInt64.ofNat data.length)
-    (hoff : f.headerStart = UInt64.ofNat off) (hz : centralZip64Bytes f = []) :
-    appendNorm (specEntry f dp gap lx data lv) off 0 = specEntry f dp gap lx data lv := by
-  rw [writer_entries_fixed f dp gap lx data lv off hs hm hcs hoff, hz]
-  rfl
+    (hoff : f.headerStart = UInt64.ofNat off) (hx : ExtraOk f.extraField) :
+    appendNorm (specEntry f dp gap lx data lv) off 0 = specEntry f dp gap lx data lv :=
+  appendNorm_specEntry f dp gap lx data lv off hs hm hcs hoff hx
 
 /-! ## 3. The whole directory -/
 
@@ -121,7 +121,7 @@ entries of the prefix-less archive the appending writer continues (`appendNormAl
 becomes dead bytes in front of the first local header). -/
 theorem viewOf_closedAll (l : Layout)
     (hall : ∀ e ∈ l.entries, AppendClean e ∧ e.centralExtra.length + 56 ≤ 0xFFFF) :
-    ClosedAll (appendNormAll l) 0 (viewOf l) := WL.viewOf_closedAll l hall
+    ClosedAll (appendNormAll l) 0 ((viewOf l).map appendRecord) := WL.viewOf_closedAll l hall
 
 /-- … and their local part, followed by the dead bytes `appendGap l`, is what the sink holds in front of
 the old central directory. -/
@@ -137,19 +137,17 @@ theorem append_open_is_base_state (l : Layout) (hF : l.Fits) (hR : l.Readable) (
       d.buf = build l ∧ d.pos = l.cdStart ∧
       d.buf.take d.pos = localsBytes (appendNormAll l) ++ appendGap l ∧
       ClosedAll (appendNormAll l) 0 s.files ∧
-      s.files = viewOf l ∧ s.comment = l.comment ∧
+      s.files = (viewOf l).map appendRecord ∧ s.comment = l.comment ∧
       s.inner = .storer none ∧ s.writingToFile = false ∧ s.writingToExtraField = false ∧
       s.centralOnly = false ∧ (s.files = [] ∨ s.writingRaw = true) :=
   WL.append_open_is_base_state l hF hR hS ht hall
 
-/-- Is the continued archive again one that C03 reads?  Entry-wise: yes when the entry is `AppendClean`,
-its extra data are small and its OLD central record had no ZIP64 record.  (With one, the kept copy makes
-`centralExtra` contain identifier 0x0001, which `Entry.Readable` excludes — see the finding below.) -/
+/-- **The continued archive is again one that C03 reads** (since D20, ZIP64 or not): the normalised entry
+of an `AppendClean`, `Readable` entry that `Fits` again `Fits` and is `Readable`. -/
 theorem appendNorm_again_wf (e : Entry) (off pre : Nat) (hf : e.Fits) (hr : e.Readable)
-    (hc : AppendClean e) (hx : e.centralExtra.length + 56 ≤ 0xFFFF)
-    (hz : e.zU = false ∧ e.zC = false ∧ e.zO (UInt64.ofNat off) = false) :
+    (hc : AppendClean e) :
     (appendNorm e off pre).Fits ∧ (appendNorm e off pre).Readable :=
-  ⟨appendNorm_fits e off pre hf hc hx, appendNorm_readable e off pre hr hz⟩
+  ⟨appendNorm_fits e off pre hf hc hr, appendNorm_readable e off pre hr⟩
 
 /-! ## 4. Non-vacuity and findings (kernel evaluation) -/
 
@@ -159,7 +157,8 @@ open ZipVerif.Props.C03 (exA exB exL)
 evaluates to the stated state and position. -/
 example :
     (match newAppend.runPure (Dev.ofBytes (build exL)) with
-     | (.ok s, d) => s.files == viewOf exL && s.comment == [0x68, 0x69] && s.writingRaw &&
+     | (.ok s, d) => s.files == (viewOf exL).map appendRecord && s.comment == [0x68, 0x69] && s.writingRaw &&
+        s.files.map (·.extraField) == [exA.centralExtra, exB.centralExtra] &&
         s.inner == .storer none && !s.writingToFile && !s.writingToExtraField && !s.centralOnly &&
         d.buf == build exL && d.pos == exL.cdStart && d.pos == 5 + exL.cdOffset &&
         s.files.map (·.headerStart) == [5, 48]
@@ -171,7 +170,7 @@ example : AppendClean exA ∧ AppendFits exA 0 5 ∧ exA.centralExtra.length + 5
 /-- The bridge on the concrete entry, evaluated: the writer's central header for the re-hydrated `exA`
 IS the spec's central record of the normalised entry at offset 0 + 5, and the local bytes are kept. -/
 example :
-    (match centralHeaderChunks (viewEntry exA 0 5 107) with
+    (match centralHeaderChunks (appendRecord (viewEntry exA 0 5 107)) with
      | .ok cs => ser cs == centralRecord (appendNorm exA 0 5) 5
      | _ => false) = true ∧
     (appendNorm exA 0 5).localBytes = exA.localBytes := by decide +kernel
@@ -190,7 +189,7 @@ example :
     (appendNorm exBd 43 5).localBytes = exBd.localBytes ∧
     (appendNorm exBd 43 5).comment = [] ∧ exBd.comment = [0x63] ∧
     (appendNorm exBd 43 5).internalAttrs = 0 ∧ exBd.internalAttrs = 1 ∧
-    (match centralHeaderChunks (viewEntry exBd 43 5 158) with
+    (match centralHeaderChunks (appendRecord (viewEntry exBd 43 5 158)) with
      | .ok cs => ser cs == centralRecord (appendNorm exBd 43 5) 48 &&
         ((ser cs).drop 8).take 2 == [0x08, 0x00]
      | _ => false) = true ∧
@@ -202,20 +201,20 @@ has flags 0x0008 while the untouched local header keeps 0x0808 — the two recor
 after append + finish.  `exB` is not `AppendClean`. -/
 example :
     ¬ AppendClean exB ∧ exB.flagsOut = 0x0808 ∧ (appendNorm exB 43 5).flagsOut = 0x0008 ∧
-    (match centralHeaderChunks (viewEntry exB 43 5 158) with
+    (match centralHeaderChunks (appendRecord (viewEntry exB 43 5 158)) with
      | .ok cs => ser cs == centralRecord (appendNorm exB 43 5) 48 &&
         ((ser cs).drop 8).take 2 == [0x08, 0x00]
      | _ => false) = true ∧
     ((localRecord exB).drop 6).take 2 = [0x08, 0x08] := by decide +kernel
 
-/-- **Finding (ZIP64 record duplicated).**  `exB`'s old central header carries a ZIP64 record (compressed
-size forced through it).  The re-hydrated `extra_field` keeps it, so the rewritten central extra field
-is `old ZIP64 record ++ foreign records`; had a size really needed ZIP64, `write_central_zip64_extra_field`
-would put a SECOND 0x0001 record in front.  The normalised entry is therefore not `Readable` in the sense
-of C03 (identifier 0x0001 inside `centralExtra`). -/
+/-- **D20 regression (ZIP64 record no longer duplicated).**  `exB`'s old central header carries a ZIP64
+record (compressed size forced through it).  `new_append` drops it: the rewritten central extra field
+is exactly the foreign records, and the normalised entry is `Readable` in the sense of C03 again.  (Before
+the repair the old record was kept and a new one put in front on every round — see
+`C13LayoutZ.d20_pre_fix_witness`.) -/
 example :
-    (appendNorm exB 43 5).centralExtra = le16 1 ++ le16 8 ++ le64 5 ++ exB.centralExtra ∧
-    ¬ (appendNorm exB 43 5).Readable := by decide +kernel
+    (appendNorm exB 43 5).centralExtra = exB.centralExtra ∧ (appendNorm exB 43 5).Readable := by
+  decide +kernel
 
 /-- A host other than DOS/Unix is renumbered to 4, the low byte is kept. -/
 example : (appendNorm { exA with madeBy := 0x0a3f } 0 0).madeBy = 0x043f ∧
@@ -253,11 +252,11 @@ example :
 def bigPayload : Bytes := List.replicate 65503 0
 theorem bigPayload_length : bigPayload.length = 65503 := List.length_replicate
 
-/-- **Finding (`AppendFits` is a real restriction).**  An entry that `Fits`, is `Readable`, whose central
-header has all three ZIP64 fields forced and whose uncompressed size really is ≥ 0xFFFFFFFF, with 65507
-bytes of foreign extra data: the re-hydrated extra field has 65535 bytes, the new ZIP64 record adds 12,
-and `write_central_directory_header` fails with `InvalidArchive` — `finish()` after `new_append` errors
-although nothing was added. -/
+/-- **D20 regression (was: finding "`AppendFits` is a real restriction").**  An entry that `Fits`, is
+`Readable`, whose central header has all three ZIP64 fields forced and whose uncompressed size really is
+≥ 0xFFFFFFFF, with 65507 bytes of foreign extra data.  Before the repair the re-hydrated extra field had
+65535 bytes (old ZIP64 record kept), the new ZIP64 record added 12 and `write_central_directory_header`
+failed with `InvalidArchive`.  Now the old record is dropped: 65507 + 12 bytes fit, `finish()` succeeds. -/
 def exBig : Entry :=
   { exA with usize := 0xFFFFFFFF, z64 := (true, true, true),
              centralExtra := le16 0xcafe ++ le16 65503 ++ bigPayload }
@@ -276,24 +275,9 @@ theorem exBig_readable : exBig.Readable := by
   rw [bigPayload_length] at this
   exact this
 
-theorem exBig_not_fits : ¬ AppendFits exBig 0 0 := by
-  unfold AppendFits
-  have h1 : (centralZip64Bytes (viewEntry exBig 0 0 0)).length = 12 := by decide +kernel
-  have h2 : (exBig.centralZ64 (UInt64.ofNat 0)).length = 28 := by decide +kernel
-  rw [h1]
-  simp only [Entry.centralExtraAll, List.length_append, h2, exBig_len]
-  decide
-
-/-- the finding itself: `finish()` on the just-opened archive fails -/
-theorem finding_append_extra_overflow : exBig.Fits ∧ exBig.Readable ∧ ¬ AppendFits exBig 0 0 ∧
-    centralHeaderChunks (viewEntry exBig 0 0 0) = .err .invalidArchive := by
-  refine ⟨exBig_fits, exBig_readable, exBig_not_fits, ?_⟩
-  have h := exBig_not_fits
-  unfold AppendFits at h
-  unfold centralHeaderChunks
-  have : (centralZip64Bytes (viewEntry exBig 0 0 0)).length + (viewEntry exBig 0 0 0).extraField.length > 65535 := by
-    have e : (viewEntry exBig 0 0 0).extraField = exBig.centralExtraAll (UInt64.ofNat 0) := rfl
-    rw [e]; omega
-  simp only [this, if_true]
+theorem regression_append_extra_fits : exBig.Fits ∧ exBig.Readable ∧ AppendFits exBig 0 0 ∧
+    Closed (appendNorm exBig 0 0) 0 (appendRecord (viewEntry exBig 0 0 0)) :=
+  ⟨exBig_fits, exBig_readable, appendFits_of_fits_readable exBig 0 0 exBig_fits exBig_readable,
+    WL.view_closed exBig 0 0 0 (appendFits_of_fits_readable exBig 0 0 exBig_fits exBig_readable)⟩
 
 end ZipVerif.Props.C13
